@@ -573,6 +573,16 @@ def main():
         except Exception as e:
             undecided.append("flatten syntactic check could not run: %s" % e)
 
+    # ---- trusted (unverified) code this property leans on must still be the reviewed text
+    try:
+        import trusted_text
+        for key, why, what in trusted_text.check(repo_src, pid):
+            unverifiable.append({"obligation": "trusted-text :: %s :: %s" % (key, what), "fn": key,
+                                 "msg": "trusted code changed (%s): %s; its assumed contract is no longer backed by the reviewed text" % (why, what),
+                                 "clause": "", "origin": None, "rendered": "%s: %s (%s)" % (key, what, why)})
+    except Exception as e:
+        undecided.append("trusted-text guard could not run: %s" % e)
+
     # ---- bounded Kani stand-ins
     kani_info = None
     fams = pm.get("kani", {}).get(tier, pm.get("kani", {}).get("quick", [])) if pm.get("kani") else []
@@ -694,8 +704,12 @@ def main():
 
     for ln in out_lines:
         print(ln)
-    print("property %s tier %s: %d/%d obligations discharged, %d functions under contract, verus %.1fs, wall %.1fs" %
-          (pid, tier, discharged, obligations, len(functions), vr.wall_s, wall))
+    kn = ""
+    if kani_info:
+        hs = kani_info.get("harnesses", [])
+        kn = ", kani %d/%d harnesses ok (bounded)" % (len([h for h in hs if h.get("status") == "SUCCESSFUL" or h.get("should_panic")]) - len(kani_info.get("failed", [])) if False else len([h for h in hs if h.get("status")]) - len(set(f["harness"] for f in kani_info.get("failed", []))), len(hs))
+    print("property %s tier %s: %d/%d obligations discharged, %d functions under contract, verus %.1fs%s, wall %.1fs" %
+          (pid, tier, discharged, obligations, len(functions), vr.wall_s, kn, wall))
     if viol_lines:
         for ln in viol_lines:
             print(ln)
